@@ -1,5 +1,161 @@
-import SemVerif.Spec.Preds
-import SemVerif.Inventory
-/-! # Property C14 — theorems (under construction) -/
+import SemVerif.Lemmas.T1Fn
+import SemVerif.Props.C15
+import SemVerif.Props.C13
+/-!
+# Property C14 — the first reported error is the first violated rule, with kind and name
+
+`C14`: for every program of the domain (loop-flavoured if-bodies only inside loops), the first
+entry of the model's error list has the kind — and, for the kinds that name an identifier, the
+identifier — of the first *enforced* rule violation the reference rule checker `refCheck` meets
+in analysis order (DESIGN §3.1, §3.3); both lists are empty together.
+Family T1: a simulation between the analyzer model and the rule checker that is maintained until
+the first violation (afterwards both sides only append): declaration passes (`rel_run`, one error
+per enforced violation), expressions (`sim_exprM`), statements and control constructs
+(`sim_ifCondition` …, mutual structural induction), function bodies (`sim_bodyStmts`).
+C01 and C02 are corollaries (Props/C01, Props/C02).
+-/
 namespace SemVerif
+
+/-- both lists empty (no enforced violation), or both non-empty with matching first entry -/
+def FirstAgree (E : List Err) (V : List Viol) : Prop :=
+  (E = [] ∧ firstEnf V = none) ∨ (∃ e rest v, E = e :: rest ∧ firstEnf V = some v ∧ keyE e = keyV v)
+
+theorem firstAgree_concat {E1 E2 : List Err} {V1 V2 : List Viol} (h1 : FirstAgree E1 V1) (h2 : FirstAgree E2 V2) :
+    FirstAgree (E1 ++ E2) (V1 ++ V2) := by
+  rcases h1 with ⟨he, hv⟩ | ⟨e, rest, v, he, hv, hk⟩
+  · subst he
+    rcases h2 with ⟨he2, hv2⟩ | ⟨e, rest, v, he2, hv2, hk⟩
+    · exact Or.inl ⟨by simp [he2], by rw [firstEnf_append_none hv]; exact hv2⟩
+    · exact Or.inr ⟨e, rest, v, by simp [he2], by rw [firstEnf_append_none hv]; exact hv2, hk⟩
+  · exact Or.inr ⟨e, rest ++ E2, v, by simp [he], firstEnf_append_some hv, hk⟩
+
+theorem firstAgree_of_keys {E : List Err} {V : List Viol}
+    (h : E.map (fun e => errKey e.kind e.value) = (V.filter (·.enforced)).map (fun v => errKey v.kind v.name)) :
+    FirstAgree E V := by
+  unfold FirstAgree firstEnf
+  cases E with
+  | nil =>
+    left
+    refine ⟨rfl, ?_⟩
+    cases hf : V.filter (·.enforced) with
+    | nil => rfl
+    | cons x xs => rw [hf] at h; simp at h
+  | cons e rest =>
+    right
+    cases hf : V.filter (·.enforced) with
+    | nil => rw [hf] at h; simp at h
+    | cons x xs =>
+      rw [hf] at h
+      simp only [List.map_cons, List.cons.injEq] at h
+      exact ⟨e, rest, x, rfl, rfl, h.1⟩
+
+theorem firstAgree_flatten {α : Type} (F : α → List Err) (G : α → List Viol) : ∀ (l : List α),
+    (∀ x ∈ l, FirstAgree (F x) (G x)) → FirstAgree (l.map F).flatten (l.map G).flatten
+  | [], _ => Or.inl ⟨rfl, rfl⟩
+  | x :: rest, h => by
+    simp only [List.map_cons, List.flatten_cons]
+    exact firstAgree_concat (h x (by simp)) (firstAgree_flatten F G rest (fun y hy => h y (by simp [hy])))
+
+theorem assocGet_map {β γ : Type} (f : β → γ) (n : Name) : ∀ (l : List (Name × β)),
+    assocGet n (l.map fun x => (x.1, f x.2)) = (assocGet n l).map f
+  | [] => rfl
+  | (k, v) :: rest => by
+    simp only [List.map_cons, assocGet]
+    split
+    · rfl
+    · exact assocGet_map f n rest
+
+theorem globRel_of_rel {gs : GState} {ds : DS} (h : Rel gs ds) : GlobRel gs.globals ds.g := by
+  refine ⟨?_, ?_, ?_⟩
+  · intro n; show assocGet n gs.types = _; rw [rlookup_eq_assocGet, h.gtypes, h.types]
+  · intro n; show (assocGet n gs.consts).map _ = _
+    rw [rlookup_eq_assocGet, h.gconsts, assocGet_map]
+  · intro n; show (assocGet n gs.funcs).map _ = _
+    rw [rlookup_eq_assocGet, h.gfuncs, assocGet_map (fun (x : Func) => (x.params, x.ty))]
+
+theorem scopeRel_init : ScopeRel St.init [[]] := by
+  unfold ScopeRel St.vals St.frames
+  exact ValsRel.cons (fun n => by simp [St.init, Block.fresh, assocGet, rlookup]) ValsRel.nil
+
+/-- one function body against the rule checker -/
+theorem sim_functionBody {g : Globals} {rg : RGlobals} (hg : GlobRel g rg) (f : FnDecl)
+    (hok : BodyStmt.loopOKL f.body = true) : FirstAgree (functionBody g f).errors (checkFn rg f) := by
+  unfold functionBody checkFn
+  dsimp only
+  have h1 := sim_initParams f.params St.init { scope := [[]], viols := [] } scopeRel_init
+  generalize initParams f.params St.init = s1 at h1
+  generalize checkParams f.params { scope := [[]], viols := [] } = r1 at h1
+  have h2 : StmtSim St.init (bodyStmts g f.result.toTy f.body false s1).1 { scope := [[]], viols := [] }
+      (checkBody rg f.result.toTy f.body false r1).1
+      (Post s1 (bodyStmts g f.result.toTy f.body false s1).1 (checkBody rg f.result.toTy f.body false r1).1 ∧
+        (bodyStmts g f.result.toTy f.body false s1).2 = (checkBody rg f.result.toTy f.body false r1).2) :=
+    StmtSim.seq h1 (fun hp => sim_bodyStmts hg f.result.toTy f.body false s1 r1 hok hp)
+      (ext_of_steps (steps_bodyStmts g f.result.toTy f.body false s1)) (rext_checkBody f.result.toTy f.body false r1)
+  generalize bodyStmts g f.result.toTy f.body false s1 = q at h2
+  obtain ⟨s2, rc⟩ := q
+  generalize checkBody rg f.result.toTy f.body false r1 = qc at h2
+  obtain ⟨r2, rcc⟩ := qc
+  dsimp only at h2 ⊢
+  have h3 : StmtSim St.init (if rc = true then s2 else s2.addErr .returnNotFound [] 1 0) { scope := [[]], viols := [] }
+      (if rcc = true then r2 else r2.viol "B12-none" .returnNotFound []) True := by
+    refine StmtSim.seq h2 (fun hp => ?_) ?_ ?_
+    · obtain ⟨_, hr⟩ := hp
+      subst hr
+      cases rc
+      · exact sim_err s2 r2 _ _ 1 0 _ _
+      · exact StmtSim.refl s2 r2 trivial
+    · cases rc
+      · exact ⟨[_], rfl⟩
+      · exact ⟨[], by simp⟩
+    · cases rcc
+      · exact rext_viol _ _ _ _
+      · exact RExt.refl _
+  obtain ⟨Δ, hΔ, h⟩ := h3
+  simp only [List.nil_append] at hΔ
+  rw [hΔ]
+  rcases h with ⟨hv, he, _⟩ | ⟨e, rest, v, he, hv, hk⟩
+  · exact Or.inl ⟨by rw [he]; rfl, hv⟩
+  · exact Or.inr ⟨e, rest, v, by rw [he]; rfl, hv, hk⟩
+
+/-- **T1** — the model's error list and the rule checker's violations agree on emptiness and on the
+first entry, for every program whose loop-flavoured if-bodies are inside loops -/
+theorem T1 (p : Program) (hok : LoopOKB p = true) : FirstAgree (run p).errors (refCheck p) := by
+  have hrel := rel_run p
+  have hg := globRel_of_rel hrel
+  unfold run refCheck
+  dsimp only
+  apply firstAgree_concat (firstAgree_of_keys hrel.errs)
+  rw [List.map_map, fns_eq_fnDecls]
+  apply firstAgree_flatten
+  intro f hf
+  apply sim_functionBody hg f
+  unfold LoopOKB at hok
+  rw [List.all_eq_true] at hok
+  exact hok f hf
+
+theorem firstAgree_head {E : List Err} {V : List Viol} (h : FirstAgree E V) :
+    (E.head?.map fun e => errKey e.kind e.value) = ((V.filter (·.enforced)).head?.map fun v => errKey v.kind v.name) := by
+  rcases h with ⟨he, hv⟩ | ⟨e, rest, v, he, hv, hk⟩
+  · subst he
+    unfold firstEnf at hv
+    simp [hv]
+  · subst he
+    unfold firstEnf at hv
+    simp [hv]; exact hk
+
+/-- **C14** — the output predicate of the property holds on the model's result for every program -/
+theorem C14 (p : Program) : P_C14 p (run p) = [] := by
+  unfold P_C14
+  split
+  · rfl
+  · rename_i hcond
+    simp only [Bool.or_eq_true, Bool.not_eq_true', not_or, Bool.not_eq_false] at hcond
+    have hok : LoopOKB p = true := by
+      cases h : LoopOKB p with
+      | true => rfl
+      | false => exact absurd h (by simpa using hcond.2)
+    have h := firstAgree_head (T1 p hok)
+    unfold refCheckEnf
+    simp only [h, beq_self_eq_true, if_true]
+
 end SemVerif
